@@ -18,13 +18,14 @@ META = {
                    "an arbitrary function: adding a lease whose renew secret is known renews the first matching lease in place "
                    "(expiry max(old,new)) and adds nothing; no lease operation removes a lease or lowers an expiry; renewing with an "
                    "unknown secret raises IndexError and leaves the file byte-identical; data writes and container growth leave "
-                   "every lease record intact; on v2 containers the resulting file and every decision depend on the secrets only "
+                   "every lease record intact; cancel_lease removes exactly the matching leases in place and leaves later slots enumerable; on v2 containers the resulting file and every decision depend on the secrets only "
                    "through their hashes.  The models are run against the real files (all bytes compared) on generated histories "
                    "and the statement is evaluated on the server by an independent lease-table oracle."),
     "level_note": ("blake2b is abstract in the theorems; in the correspondence runs it is instantiated by the table of digests the "
                    "implementation computed.  Trusted: hand transcription of lease.py, lease_schema.py and the lease methods of "
                    "immutable.py / mutable.py / server.py into Model/Lease.v and Model/Slot.v (tied by the correspondence), "
-                   "timing_safe_compare = equality, integral clock.  cancel_lease is not reachable remotely and is not modelled. "
+                   "timing_safe_compare = equality, integral clock.  MutableShareFile.cancel_lease (lease-expiry crawler) is modelled and run in "
+                   "histories that cancel older leases and then renew/add/enumerate the later ones; ShareFile.cancel_lease is not. "
                    "StorageServer.renew_lease over several shares is not atomic across shares (it stops at the first share without "
                    "the lease); the statement is per share and the model takes the os.listdir order as an input."),
     "technique": "Coq proof over executable byte-level models + differential run vs real share files + direct oracle",
